@@ -303,18 +303,23 @@ struct StorageResolver<'a, B, OC, SC, L> {
     // the references each thread is currently loading (a resolver may be shared between threads:
     // one thread's nesting must not be mistaken for another's recursion)
     chain: Mutex<Vec<(std::thread::ThreadId, PlainRef)>>,
+    // loads set off by the outermost `get` each thread is in
+    work: Mutex<HashMap<std::thread::ThreadId, usize>>,
 }
 impl<'a, B, OC, SC, L> StorageResolver<'a, B, OC, SC, L> {
     pub fn new(storage: &'a Storage<B, OC, SC, L>) -> Self {
         StorageResolver {
             storage,
-            chain: Mutex::new(vec![])
+            chain: Mutex::new(vec![]),
+            work: Mutex::new(HashMap::new()),
         }
     }
 }
 
 /// How many objects may be in the middle of loading each other (per thread).
 const MAX_NESTED_LOADS: usize = 48;
+/// How many loads one outermost `get` may set off (per thread).
+const MAX_LOADS_PER_CALL: usize = 100_000;
 
 struct Defer<F: FnMut()>(F);
 impl<F: FnMut()> Drop for Defer<F> {
@@ -359,8 +364,21 @@ where
             }
             // a chain of distinct objects that load each other eagerly (page-tree /Parent links ...)
             // is as dangerous for the stack as a cycle
-            if chain.iter().filter(|&&(t, _)| t == thread).count() >= MAX_NESTED_LOADS {
+            let nested = chain.iter().filter(|&&(t, _)| t == thread).count();
+            if nested >= MAX_NESTED_LOADS {
                 bail!("references nested more than {} deep", MAX_NESTED_LOADS);
+            }
+            // Without a cache an object that is reachable along several paths is loaded once per path:
+            // fonts that each name the next one four times cost 4^depth loads.  Count the loads that one
+            // outermost call sets off.
+            let mut work = self.work.lock().unwrap();
+            let count = work.entry(thread).or_insert(0);
+            if nested == 0 {
+                *count = 0;
+            }
+            *count += 1;
+            if *count > MAX_LOADS_PER_CALL {
+                bail!("more than {} objects loaded to answer one call", MAX_LOADS_PER_CALL);
             }
             chain.push((thread, key));
         }
@@ -373,6 +391,9 @@ where
             // loads nest per thread: the innermost entry of *this* thread is the one to remove
             let innermost = chain.iter().rposition(|&(t, _)| t == thread);
             assert_eq!(innermost.map(|i| chain.remove(i).1), Some(key));
+            if !chain.iter().any(|&(t, _)| t == thread) {
+                self.work.lock().unwrap().remove(&thread);
+            }
         });
         
         {
